@@ -18,16 +18,24 @@ A_VCPREFIX = "switch prefix of proof.RootFromConsistencyProof (equal sizes, size
 
 GETCP = "(*%s/internal/witness.Witness).GetCheckpoint" % W
 
+ASLOGMAP = "(%s/omniwitness.LogConfig).AsLogMap" % W
+WNEW = "%s/internal/witness.New" % W
+INITM = "%s/internal/witness.initMetrics$1" % W
+
 PROPS = {
+    "C01": {"funcs": [UPDATE], "tags": ["C01"], "assumptions": [A_NOTE, A_STORE, A_MERKLE, A_VCPREFIX,
+            "the induction over histories is the pure lemma history_step (discharged by SMT) applied per commit; that commits of different calls are applied in sequence is the storage contract"],
+            "bounded": [], "not_decided": ["agreement of proof.VerifyConsistency with RFC 6962 ground truth (Merkle mathematics): assumed"]},
+    "C02": {"funcs": [UPDATE, ASLOGMAP, WNEW], "tags": ["C02"], "assumptions": [A_NOTE, A_STORE, "formats/note.NewVerifier and log.ID are functions of their argument (assumed contracts); omniwitness.Main passing AsLogMap's result to witness.New is read, not verified (Main uses goroutines: outside the subset)"]},
     "C03": {"funcs": [UPDATE, GETCP], "tags": ["C03"], "assumptions": [A_NOTE, A_STORE]},
     "C04": {"funcs": [UPDATE, GETCP], "tags": ["C04"], "assumptions": [A_NOTE, A_STORE, "the cosignature/v1 signer stamps time.Now() when note.Sign calls it (formats/note/note_cosigv1.go): the timestamp window follows from 'the Sign call happened inside this Update call' (proved)"]},
     "C07": {"funcs": [UPDATE], "tags": ["C07"], "assumptions": [A_NOTE, A_STORE]},
     "C08": {"funcs": [UPDATE], "tags": ["C08"], "assumptions": [A_NOTE, A_STORE, A_VCPREFIX]},
     "C09": {"funcs": [UPDATE], "tags": ["C09"], "assumptions": [A_NOTE, A_STORE, A_VCPREFIX]},
-    "C20": {"funcs": [UPDATE], "tags": ["C20"], "assumptions": [A_NOTE, A_STORE, A_VCPREFIX, "monitoring.Counter.Inc adds one to the counter for its label (interface contract)"]},
+    "C20": {"funcs": [UPDATE, INITM], "tags": ["C20"], "assumptions": [A_NOTE, A_STORE, A_VCPREFIX, "monitoring.Counter.Inc adds one to the counter for its label (interface contract)"]},
 }
 
-HOOK_COMMITS = ["7296b73", "af7d29a", "308f21e"]
+HOOK_COMMITS = ["7296b73", "af7d29a", "308f21e", "b6239f6"]
 
 NOT_APPLICABLE = {
     "C14": "whole-system liveness and timing over goroutines, tickers, HTTP servers and stub log servers ('within a bounded number of poll intervals', across restarts): no per-function contract expresses 'eventually catches up', and omniwitness.Main (go/select/errgroup) is outside the generator's subset. Its safety ingredients are decided by C01, C12, C13, C16.",
@@ -36,6 +44,10 @@ NOT_APPLICABLE = {
 
 _UPD = "the real (*Witness).Update (helpers parse/signChkpt inlined), every path enumerated (43 acyclic paths incl. inlined helpers; 23 reachable), all inputs, 64-bit sizes"
 MANIFEST_TEXT = {
+    "C01": {"level": "Invariant Chain(history) preserved by every commit: (a) Update's postcondition: at most one commit per call, only on success, and if a checkpoint was stored then it parsed under this log's key/origin, sizes do not decrease, equal size implies equal root, growth implies proof.VerifyConsistency accepted exactly (stored size, new size, proof, stored root, new root) -- verified against the value read through the same write handle; (b) the history lemma (pairwise consistency of the whole history follows from the relation to the last element) and the link lemma are discharged by SMT: this is the induction over all histories; (c) call-graph obligation: only Update calls WriteOps/Set in the non-test program.",
+            "note": "RFC 6962 soundness of VerifyConsistency and transitivity of tree consistency are hypotheses (Merkle mathematics / SHA-256, not SMT-provable). Store implementations: see C05/C06."},
+    "C02": {"level": "Postconditions of Update (accepted => log ID known and the submitted bytes parse under exactly that ID's configured verifier and origin; unknown ID => (nil, ErrUnknownLog) with no storage call, no signature, no counter; the committed text is the submitted text) for an arbitrary symbolic configuration map (any number of logs, shared keys allowed), plus the loop proof of LogConfig.AsLogMap (every configured log is filed under ID(origin) with the verifier built from its own key; every entry's key is the ID of its own origin) and witness.New storing the map unchanged.",
+            "note": "signature verification itself is the assumed contract of log.ParseCheckpoint/note.Open; 'no entry without a configured log' is implied by the map starting empty but is not stated as an obligation (it needs an existential invariant that made the solvers unstable)."},
     "C03": {"level": "Postcondition + frame of Update and GetCheckpoint over the ghost abstract store: on every path with err != nil the whole store map (all logs, key set) and the commit counter are unchanged, and the returned bytes are nil or exactly the stored checkpoint; a signature produced on a refused path is never returned. Path-complete over " + _UPD + ".",
             "note": "storage interface contract (sequential reading) and note.Sign/ParseCheckpoint contracts assumed; implementations of the store checked separately."},
     "C04": {"level": "Postconditions of Update/GetCheckpoint: on every accept path the result is the value of a note.Sign call made during this call on the note opened from the submitted bytes (so a refresh re-signs), it is what was committed, and a following read returns it. One clause (the result re-opens under the log key) fails when the cosigned note exceeds 100 signature lines: recorded as known finding F1 and proved outside that region.",
